@@ -626,6 +626,14 @@ def run(ck: Check):
             hist["sticky-reverted" if st.get("reverted") else "sticky-not-reverted"] += 1
             hist["prev-nonempty" if st.get("prev") else "prev-empty"] += 1
     ck.extra["random_histogram"] = dict(hist)
+    # the witness of c14_sticky_valid_full_refuted is what the real executor does on corpus case 0
+    if corpus:
+        w = next((rr for j, r in zip(jobs, res) for case, rr in zip(j, r) if case is corpus[0]), None)
+        st = (w or {}).get("sticky") or {}
+        ck.obligation("witness:c14_sticky_valid_full_refuted-log==real-log",
+                      st.get("assigns") == [[1, 0, 1]] and st.get("reassigns") == [[0, 0, 1, 0, 0], [0, 1, 2, 0, 1]]
+                      and st.get("reverted") == 0 and bool(mon_valid(corpus[0], st.get("out") or [])),
+                      json.dumps(st)[:300])
     if have_runner:
         results = run_ocaml([s for s, _ in streams])
         settle(ck, tally, streams, results, "ocaml")
